@@ -12,7 +12,12 @@ construction; zlib's rejection of a damaged-but-complete stream is assumed.
 import sys, os
 sys.path.insert(0, os.path.dirname(os.path.dirname(os.path.abspath(__file__))))
 from run import core
-from checks import file_common, c04, c10
+from checks import file_common, c04, c10, c15
+def stream_jobs():
+    """the stream's state law (C15): a request past the declared end sets eof|fail, nothing else resets it - what 'cut short => not delivered' rests on"""
+    return [core.borrow(j, 'C15', 'C08') for j in c15.jobs(1, 600) if j.name.split('UncompressedFile_')[-1] in ('read', 'seekg', 'setters_accessors_predicates')]
+
+
 def rename(j):
     """the hostile-stream decode jobs of C10 also carry the truncation clause R6 (reported here)"""
     j.name = j.name.replace('C10_', 'C08_')
@@ -20,6 +25,6 @@ def rename(j):
 
 
 if __name__ == '__main__':
-    core.main_wrapper(lambda: file_common.run_property('C08', extra_jobs=lambda info: c04.compress_jobs(info)[1:] + [rename(j) for j in c10.codec_jobs(info, [])], assumptions=[
+    core.main_wrapper(lambda: file_common.run_property('C08', extra_jobs=lambda info: c04.compress_jobs(info)[1:] + [rename(j) for j in c10.codec_jobs(info, [])] + stream_jobs(), assumptions=[
         'zlib returns Z_OK with the exact length only for an intact stream (assumed contract)',
         'truncation of the byte stream is modelled by an arbitrary declared end of the abstract streams; the composition over a whole file (prefix-exactness, monotonicity) is an argument over the spec function, not a machine-checked obligation']))
